@@ -752,6 +752,17 @@ def install(ctx):
         if getattr(rng, 'name', None) == 'RangeFull':
             write_loc(r.loc, Seq.empty(s.kind))
             return Window(s, 0, s.n)
+        nm = getattr(rng, 'name', None)
+        if nm in ('RangeTo', 'Range', 'RangeFrom') and not getattr(s, 'lazy', None):
+            a = z3.IntVal(0) if nm == 'RangeTo' else rng.fields[0].t
+            b = s.n if nm == 'RangeFrom' else rng.fields[-1].t
+            if not ip.path.branch(z3.And(a <= b, b <= s.n, a >= 0), 'drain bounds'):
+                raise PanicPath('panic', 'drain range out of bounds')
+            cap = len(s.elems)
+            k = z3.simplify(b - a)
+            rest = [select(s.elems, z3.If(a > j, j, j + k)) if cap else None for j in range(cap)]
+            write_loc(r.loc, Seq(rest, z3.simplify(s.n - k), s.kind))
+            return Window(s, z3.simplify(a), z3.simplify(b))
         raise Unsupported('drain of a sub-range')
 
     @M.reg('VecDeque::rotate_left', 'VecDeque::rotate_right', '[T]::rotate_left', '[T]::rotate_right')
@@ -792,6 +803,38 @@ def install(ctx):
         if pc['method'] == 'front':
             return opt_sym(s.n > 0, Ref(Loc(Cell(s.elems[0], 'front'))))
         return opt_sym(s.n > 0, Ref(Loc(Cell(select(s.elems, z3.If(s.n > 0, s.n - 1, 0)), 'back'))))
+
+    @M.reg('Vec::swap_remove', 'Vec::remove', 'VecDeque::remove')
+    def vec_remove(ip, pc, args, dt):
+        r, k = args
+        s = read_loc(r.loc)
+        deque = pc['segs'][-2] == 'VecDeque' if len(pc['segs']) >= 2 else False
+        inb = ip.path.branch(z3.And(k.t >= 0, k.t < s.n), 'remove index in bounds')
+        if not inb:
+            if deque:
+                return NONE
+            raise PanicPath('panic', 'removal index out of bounds')
+        cap = len(s.elems)
+        old = select(s.elems, k.t)
+        if pc['method'] == 'swap_remove':
+            last = select(s.elems, s.n - 1)
+            rest = [ite_val(k.t == j, last, s.elems[j]) for j in range(cap)]
+        else:
+            rest = [select(s.elems, z3.If(k.t > j, j, z3.If(j + 1 < cap, j + 1, j))) for j in range(cap)]
+        write_loc(r.loc, Seq(rest, z3.simplify(s.n - 1), s.kind))
+        return some(old) if deque else old
+
+    @M.reg('Vec::insert')
+    def vec_insert(ip, pc, args, dt):
+        r, k, v = args
+        s = read_loc(r.loc)
+        if not ip.path.branch(z3.And(k.t >= 0, k.t <= s.n), 'insert index in bounds'):
+            raise PanicPath('panic', 'insertion index out of bounds')
+        elems = s.elems + [v]
+        cap = len(elems)
+        rest = [ite_val(k.t == j, v, select(elems, z3.If(k.t > j, j, z3.If(j > 0, j - 1, 0)))) for j in range(cap)]
+        write_loc(r.loc, Seq(rest, z3.simplify(s.n + 1), s.kind))
+        return UNIT
 
     @M.reg('Vec::truncate', 'VecDeque::truncate')
     def truncate(ip, pc, args, dt):
@@ -1031,6 +1074,45 @@ def install(ctx):
         return Ref(Loc(MapSlotRoot(e.map_loc, e.key)), True)
 
     # ---------------------------------------------------------- BTreeSet
+    @M.reg('HashSet::new', 'HashSet::with_capacity', '<HashSet as Default>::default')
+    def hashset_new(ip, pc, args, dt):
+        return SetM.empty()
+
+    @M.reg('HashSet::insert')
+    def hashset_insert(ip, pc, args, dt):
+        r, e = args
+        s = read_loc(r.loc)
+        had = s.contains(e)
+        write_loc(r.loc, s.inserted(e))
+        return bool_s(z3.Not(had))
+
+    @M.reg('HashSet::contains', 'BTreeSet::contains')
+    def hashset_contains(ip, pc, args, dt):
+        s = read_loc(args[0].loc)
+        return bool_s(s.contains(deref_all(args[1])))
+
+    @M.reg('HashSet::remove')
+    def hashset_remove(ip, pc, args, dt):
+        r, e = args
+        e = deref_all(e)
+        s = read_loc(r.loc)
+        had = s.contains(e)
+        write_loc(r.loc, s.removed(e))
+        return bool_s(had)
+
+    @M.reg('HashSet::len')
+    def hashset_len(ip, pc, args, dt):
+        return S(read_loc(args[0].loc).count(), 'usize')
+
+    @M.reg('HashSet::is_empty')
+    def hashset_is_empty(ip, pc, args, dt):
+        return bool_s(z3.Not(read_loc(args[0].loc).nonempty()))
+
+    @M.reg('HashSet::clear')
+    def hashset_clear(ip, pc, args, dt):
+        write_loc(args[0].loc, SetM.empty())
+        return UNIT
+
     @M.reg('BTreeSet::new', '<BTreeSet as Default>::default')
     def set_new(ip, pc, args, dt):
         return SetM.empty()
